@@ -10,7 +10,7 @@ from .values import BV, Bool, Adt, Seq, Cell, Ref, Opaque, Str, Unsupported
 
 
 def find(prog, name, nargs, hint):
-    fs = [f for f in prog.find(name, nargs) if "{closure" not in f.name and hint in f.name]
+    fs = [f for f in prog.find(name, nargs) if "{closure" not in f.name and "isomer_erbium_verif" not in f.name and hint in f.name]
     if len(fs) != 1:
         raise Unsupported(f"{name}/{nargs} not found uniquely in the MIR dump ({[f.name for f in fs]})")
     return fs[0]
